@@ -156,16 +156,23 @@ Fixpoint all2 {A B} (f : A -> B -> bool) (a : list A) (b : list B) : bool :=
 
 (* obs: per task of the sequence (can_launch, outcome on the shared launcher
    object), and the outcome of the same task on a fresh launcher object *)
-Definition c09_row (c : cfg) (ts : list task) (obs : list (obs1 * outcome)) : list bool :=
+Definition can_eqb : (err + bool) -> (err + bool) -> bool := eqb_sum err_beq Bool.eqb.
+
+(* obs: per task of the sequence what find_launcher/can_launch answered and
+   what get_launch_cmds produced on the SHARED resource manager / launcher
+   object, and the same for the same task on FRESH objects *)
+Definition c09_row (c : cfg) (ts : list task) (obs : list (obs1 * obs1)) : list bool :=
   let o1 := map fst obs in
   [ eqb_list obs1_eqb (run c [] ts) o1
-    && all2 (fun t o => outcome_eqb (snd (get_launch_cmds c [] t)) (snd o)) ts obs;
+    && all2 (fun t o => obs1_eqb (can_launch c t, snd (get_launch_cmds c [] t)) (snd o)) ts obs;
     all2 (ok_count c) ts o1;
     all2 (ok_nodes c) ts o1;
     all2 (ok_pins c) ts o1;
-    forallb (fun o => outcome_eqb (snd (fst o)) (snd o)) obs;
+    forallb (fun o => outcome_eqb (snd (fst o)) (snd (snd o))) obs;
     all2 (ok_refuses c) ts o1;
-    forallb ok_nocrash o1; true; true ].
+    forallb ok_nocrash o1; true; true;
+    (* launcher_independent_of_earlier_tasks *)
+    forallb (fun o => can_eqb (fst (fst o)) (fst (snd o))) obs ].
 
 (* ---- launcher selection (find_launcher over a launch order) ----
    obs: per task which launcher of the order was selected (or the exception,
@@ -186,16 +193,20 @@ Definition sel_clause (f : cfg -> task -> obs1 -> bool) (cs : list cfg) (t : tas
   end.
 
 Definition c09_select_row (cs : list cfg) (ts : list task)
-  (obs : list ((err + option nat) * option outcome)) : list bool :=
+  (obs : list ((err + option nat) * option outcome)) (fresh_sel : list (err + option nat)) : list bool :=
   [ all2 (fun t o => let m := select_obs cs t in
-                     sel_eqb (fst m) (fst o) && eqb_option outcome_eqb (snd m) (snd o)) ts obs;
+                     sel_eqb (fst m) (fst o) && eqb_option outcome_eqb (snd m) (snd o)) ts obs
+    && all2 (fun t f => sel_eqb (fst (select_obs cs t)) f) ts fresh_sel;
     all2 (sel_clause ok_count cs) ts obs;
     all2 (sel_clause ok_nodes cs) ts obs;
     all2 (sel_clause ok_pins cs) ts obs;
     true;
     all2 (sel_clause ok_refuses cs) ts obs;
     forallb (fun o => match fst o with inl ECrash => false | _ => true end
-                      && match snd o with Some (inl ECrash) => false | _ => true end) obs; true; true ].
+                      && match snd o with Some (inl ECrash) => false | _ => true end) obs; true; true;
+    (* launcher_independent_of_earlier_tasks: the selection on the shared resource
+       manager, after the earlier tasks, is the selection of a fresh one *)
+    all2 (fun o f => sel_eqb (fst o) f) obs fresh_sel ].
 
 (* ---- bulks handled by Popen.work ----
    obs: per task of the bulk, FAILED or launched with launcher i of the launch
@@ -232,8 +243,19 @@ Definition bulk_clause (f : cfg -> task -> obs1 -> bool) (cs : list cfg) (t : ta
 Definition bulk_cmd_matches_placement (cs : list cfg) (t : task) (o : handled) : bool :=
   bulk_clause ok_count cs t o && bulk_clause ok_nodes cs t o && bulk_clause ok_pins cs t o.
 
-Definition c09_bulk_row (cs : list cfg) (bulk : list task) (obs : list handled) : list bool :=
-  [ eqb_list handled_eqb (map (handle cs) bulk) obs;
+Definition launched_by (o : handled) (f : err + option nat) : bool :=
+  match o with
+  | HFailed => true
+  | HLaunched i _ => sel_eqb (inr (Some i)) f
+  end.
+
+(* bulk: the tasks of all bulks of the sequence in order (one executor and one
+   resource manager for the whole sequence); fresh_sel: what a fresh resource
+   manager selects for each task alone *)
+Definition c09_bulk_row (cs : list cfg) (bulk : list task) (obs : list handled)
+  (fresh_sel : list (err + option nat)) : list bool :=
+  [ eqb_list handled_eqb (map (handle cs) bulk) obs
+    && all2 (fun t f => sel_eqb (fst (select_obs cs t)) f) bulk fresh_sel;
     all2 (bulk_clause ok_count cs) bulk obs;
     all2 (bulk_clause ok_nodes cs) bulk obs;
     all2 (bulk_clause ok_pins cs) bulk obs;
@@ -241,4 +263,5 @@ Definition c09_bulk_row (cs : list cfg) (bulk : list task) (obs : list handled) 
     all2 (bulk_clause ok_refuses cs) bulk obs;
     true;
     all2 (bulk_launcher_is_own cs) bulk obs;
-    all2 (bulk_cmd_matches_placement cs) bulk obs ].
+    all2 (bulk_cmd_matches_placement cs) bulk obs;
+    all2 launched_by obs fresh_sel ].
